@@ -5,6 +5,7 @@ From V Require Import UDial.Model UDial.Proofs.   (* C02's model of the dial: sp
 From V Require Import Gen.Params Lib.Hex Wire.Varint USpec.Model USpec.Proofs USpec.ProofsShuffle
   USpec.ProofsWire USpec.ProofsFp USpec.ProofsDial.   (* [dial] below is USpec.Model.dial *)
 From V Require UFrames.Model UFrames.Proofs UPacker.Model UPacker.ProofsRandom USpec.ProofsBuilder.
+From V Require USpec.RunDial USpec.RunFp USpec.ProofsFpCase USpec.ProofsFrameBytes.
 Import ListNotations.
 Open Scope Z_scope.
 
@@ -264,6 +265,76 @@ Theorem C11_fp_features_deterministic : forall version c p helloLen plens pn pnL
 Proof. exact ProofsBuilder.fp_features_deterministic. Qed.
 Print Assumptions C11_fp_features_deterministic.
 
+(** Round 7.  The simulated dials of unit simfingerprint are replayed by the model
+    (USpec/RunFp.v).  The simulation does not seed math/rand, so a randomised dial is accepted
+    when the wire is a permutation ([perm_eqb]) of the model's unshuffled wire.  That test is
+    exactly "the model's dial under SOME admissible draw vector": *)
+Theorem C11_fp_case_has_draws : forall sup scid ps w,
+  RunFp.perm_eqb (wire_list sup false [] scid ps) w = true ->
+  exists js, admissible (length (suppress sup ps) - 1) js /\ wire_list sup true js scid ps = w.
+Proof. exact ProofsFpCase.fp_case_has_draws. Qed.
+Print Assumptions C11_fp_case_has_draws.
+
+Theorem C11_fp_case_any_draws : forall sup scid ps js,
+  RunFp.perm_eqb (wire_list sup false [] scid ps) (wire_list sup true js scid ps) = true.
+Proof. exact ProofsFpCase.fp_case_any_draws. Qed.
+Print Assumptions C11_fp_case_any_draws.
+
+(** dialClientHelloSpec's per-dial copies: in every history the k-th dial's key_share entries
+    are the spec's -- groups in order; a GREASE entry and a key the caller supplied with their
+    own bytes; a generated key elsewhere -- its server name is the spec's (or the dial's
+    tls.Config name when the spec leaves it empty), and the spec value keeps its key shares,
+    server name and parameter list whatever the dials did. *)
+Theorem C11_dial_k_keys : forall st ops1 scid o ops2 st' views,
+  run st (ops1 ++ ODial scid o :: ops2) = Some (st', views) ->
+  exists w, nth_error views (count_dials ops1) = Some (scid, w) /\
+    Forall2 ProofsFpCase.key_rel (sKeys st) (wKeys w) /\
+    wSNI w = pick_sni (sSNI st) (oName o) /\
+    sKeys st' = sKeys st /\ sSNI st' = sSNI st /\ sParams st' = sParams st.
+Proof. exact ProofsFpCase.dial_k_keys. Qed.
+Print Assumptions C11_dial_k_keys.
+
+(** The classes the replay folds: a GREASE value is one of uTLS's sixteen 0x?a?a values with
+    equal bytes (the raw values uTLS puts on the wire are classified by this predicate in
+    RunFp, so it is tied to uTLS's output); the extension list is the spec's, position by
+    position with GREASE folded, except that padding extensions may be left out. *)
+Theorem C11_grease16_class : forall v, 0 <= v < 65536 ->
+  (isGrease16 v = true <-> exists k, 0 <= k < 16 /\ v = 2570 + 4112 * k).
+Proof. exact ProofsFpCase.grease16_class. Qed.
+Print Assumptions C11_grease16_class.
+
+Theorem C11_exts_match_spec : forall spec wire,
+  RunFp.exts_match spec wire = true -> ProofsFpCase.drop_some_padding spec wire.
+Proof. exact ProofsFpCase.exts_match_spec. Qed.
+Print Assumptions C11_exts_match_spec.
+
+Theorem C11_exts_match_exact : forall spec wire,
+  ~ In 21 spec -> RunFp.exts_match spec wire = true ->
+  map RunDial.norm16 wire = map RunDial.norm16 spec.
+Proof. exact ProofsFpCase.exts_match_exact. Qed.
+Print Assumptions C11_exts_match_exact.
+
+(** From frames to BYTES: a reader in the manner of clienthellod's ReadAllFrames (one-byte
+    frame type; PADDING = a run of zero bytes; PING; CRYPTO with varint offset and length),
+    run on the encoded payload of any well-formed frame list, finds as a set exactly the visible
+    frame types of that list ... *)
+Theorem C11_frame_types_of_bytes : forall ws, Forall ProofsFrameBytes.wf_w ws ->
+  exists l, ProofsFrameBytes.types_of (length (UFrames.Model.encode ws)) (UFrames.Model.encode ws) = Some l /\
+            forall t, In t l <-> In t (ProofsBuilder.wtypes ws).
+Proof. exact ProofsFrameBytes.types_of_encode. Qed.
+Print Assumptions C11_frame_types_of_bytes.
+
+(** ... so on the bytes of every payload C09's builder model produces for an accepted builder
+    on a slice the packer may hand it, for every value of both randomness sources, the
+    fingerprinter's frame reader finds exactly [builder_types p]. *)
+Theorem C11_builder_bytes_types : forall p data base bs us ws bs' us',
+  ProofsBuilder.builder_ok p -> ProofsBuilder.slice_ok p data base ->
+  UFrames.Model.build_internal p data base bs us = UFrames.Model.Ok (ws, bs', us') ->
+  exists l, ProofsFrameBytes.types_of (length (UFrames.Model.encode ws)) (UFrames.Model.encode ws) = Some l /\
+            forall t, In t l <-> In t (ProofsBuilder.builder_types p).
+Proof. exact ProofsFrameBytes.builder_bytes_types. Qed.
+Print Assumptions C11_builder_bytes_types.
+
 (** Non-vacuity. *)
 Example C11_ex_suppress :
   map pid (suppress [27; 4] [P 4 [1] true; P 58 [] false; P 27 [9] false; P 1 [2] true; P 89 [] false; P 26 [] false])
@@ -346,3 +417,31 @@ Example C11_ex_builder : (* the Chrome_146 builder: a full first slice and a sho
     ProofsBuilder.wtypes ws1 <> ProofsBuilder.wtypes ws2.
 Proof. exact ProofsBuilder.builder_example. Qed.
 Print Assumptions C11_ex_builder.
+
+Example C11_ex_keys : (* a GREASE share, a supplied x25519 key and a share that wants a key, dialled twice *)
+  let st := Spec [P 15 [] true] None [KS 2570 [0]; KS 29 [7; 7; 7]; KS 23 []] [] [] false in
+  exists st' v1 v2,
+    run st [ODial [1] (Oracle [] [104] [[9; 9]]); ODial [2] (Oracle [] [105] [[8; 8]])] = Some (st', [v1; v2]) /\
+    wKeys (snd v1) = [KS 2570 [0]; KS 29 [7; 7; 7]; KS 23 [9; 9]] /\
+    wKeys (snd v2) = [KS 2570 [0]; KS 29 [7; 7; 7]; KS 23 [8; 8]] /\
+    wSNI (snd v1) = [104] /\ wSNI (snd v2) = [105] /\ sKeys st' = sKeys st.
+Proof. do 3 eexists. split; [vm_compute; reflexivity|]. repeat split. Qed.
+Print Assumptions C11_ex_keys.
+
+Example C11_ex_classes :
+  isGrease16 51914 = true /\ isGrease16 2570 = true /\ isGrease16 2571 = false /\
+  RunFp.exts_match [2570; 0; 21; 51; 2570; 57] [35466; 0; 51; 23130; 57] = true /\
+  RunFp.exts_match [2570; 0; 51] [0; 2570; 51] = false /\
+  RunFp.perm_eqb [(1, [2]); (3, []); (1, [2])] [(3, []); (1, [2]); (1, [2])] = true /\
+  RunFp.perm_eqb [(1, [2]); (3, [])] [(3, []); (1, [9])] = false.
+Proof. repeat split. Qed.
+Print Assumptions C11_ex_classes.
+
+Example C11_ex_frame_bytes : (* PADDING runs merge, an empty PADDING frame is invisible, CRYPTO bodies are skipped *)
+  let ws := [UFrames.Model.WPad 2; UFrames.Model.WPad 0; UFrames.Model.WCrypto 70 [0; 1; 0];
+             UFrames.Model.WPing; UFrames.Model.WPad 3] in
+  UFrames.Model.encode ws = [0; 0; 6; 64; 70; 3; 0; 1; 0; 1; 0; 0; 0] /\
+  ProofsFrameBytes.types_of 13 (UFrames.Model.encode ws) = Some [0; 6; 1; 0] /\
+  ProofsBuilder.wtypes ws = [0; 6; 1; 0].
+Proof. repeat split. Qed.
+Print Assumptions C11_ex_frame_bytes.
